@@ -41,6 +41,7 @@ type backend struct {
 	Page    int
 	Foreign string // how the foreign layout was written
 	Cache   bool   // the client keeps its response cache (as regctl and regsync do)
+	Hole    int    // the registry's k-th tag page is empty (Link only)
 	w       *modelreg.World
 	h       *modelreg.Host
 	dir     string
@@ -50,6 +51,9 @@ func (b *backend) key() string {
 	k := fmt.Sprintf("%s/page%d/%s", b.Kind, b.Page, b.Foreign)
 	if b.Cache {
 		k += "/cache"
+	}
+	if b.Hole > 0 {
+		k += "/empty-page"
 	}
 	return k
 }
@@ -185,6 +189,10 @@ func newBackend(rng *rand.Rand, kind string, p *pool) *backend {
 		b.h.Cfg.TagDeleteAPI = kind == "reg-api"
 		b.Page = []int{0, 1, 2, 3}[rng.Intn(4)]
 		b.h.Cfg.TagPage = b.Page
+		if b.Page > 0 && rng.Intn(3) == 0 {
+			b.Hole = 1 + rng.Intn(3)
+			b.h.Cfg.TagPageHole = b.Hole
+		}
 		b.Cache = rng.Intn(2) == 0
 	case "layout":
 		b.dir, _ = os.MkdirTemp(os.Getenv("VERIF_BIN"), "c06l")
@@ -307,9 +315,39 @@ func sequential(i int) {
 		mutating := false
 		failedMut := false
 		op := rng.Intn(10)
+		if foreignNamed && op < 3 && rng.Intn(3) == 0 {
+			// a push to a tag that the foreign tool stored under a full image name: the documented lookup tries
+			// the exact name first and the full-name suffix only as a fall-back, so the push must be what the tag
+			// resolves to from now on. The history ends here (what a later delete of such a tag means is not
+			// determined by the statement).
+			err := rc.ManifestPut(ctx, b.ref(t), p.objs[man.Digest])
+			hist = append(hist, fmt.Sprintf("putTag(%s %s) onto a foreign full-named entry -> %v", t, short(man.Digest), err))
+			if err != nil {
+				viol("put-by-tag-fails", fmt.Sprintf("ManifestPut(%s) failed: %v", t, err))
+				return
+			}
+			run.Count("pushes_onto_foreign_full_named_tags", 1)
+			for _, how := range []string{"head", "get"} {
+				var m manifest.Manifest
+				if how == "head" {
+					m, err = rc.ManifestHead(ctx, b.ref(t))
+				} else {
+					m, err = rc.ManifestGet(ctx, b.ref(t))
+				}
+				if err != nil || m.GetDescriptor().Digest.String() != man.Digest {
+					got := fmt.Sprint(err)
+					if err == nil {
+						got = m.GetDescriptor().Digest.String()
+					}
+					viol("push-not-visible/foreign-full-named-tag/"+how, fmt.Sprintf("after ManifestPut(%s -> %s) %s(%s) gives %s", t, short(man.Digest), how, t, short(got)))
+					return
+				}
+			}
+			return
+		}
 		if foreignNamed && op < 3 {
 			// a short-named entry next to the foreign full-named one would make the tag ambiguous under the
-			// documented two-step lookup; such pushes are not generated
+			// documented two-step lookup; such pushes are otherwise not generated
 			op = 8
 		}
 		switch {
